@@ -65,4 +65,10 @@ CHECKS = {
         "level_note": "Trusts the generator/evaluator pair (cross-checked against each other on every well-formed numeral at run time).",
         "technique": "oracle-by-construction monitor (generate from value, compare rendering) + independent evaluator for near-miss inputs",
     },
+    "C14": {
+        "level_text": "Exploration, differential: the same compiled dictionary is loaded with and without path-rewrite plugins and every analysis is compared token by token (boundaries subset, unmerged tokens identical in all fields, merged tokens = union + concatenated surface + prescribed POS). Held on the counted analyses.",
+        "design_ref": "DESIGN.md 6/C14",
+        "level_note": "The plugin-free analysis of the same tree is the reference; trusts the token-matching walker.",
+        "technique": "differential monitor (with vs without path-rewrite plugins) over seeded workloads",
+    },
 }
